@@ -143,6 +143,13 @@ def run(ctx: Ctx) -> None:
                         dumped = tgt is not None and any(isinstance(n, ast.Call) and (prog.dotted(g, n.func) or "").endswith(("json.dumps", "json.dump"))
                                                          and any(isinstance(x, ast.Name) and x.id == tgt for x in ast.walk(n)) for n in g.own_nodes())
                     if not dumped:
+                        # the record is filled entry by entry: `rec = {}; rec["protocol"] = codec.ref(); ...; json.dumps(rec)`
+                        st = prog.enclosing_stmt(g.module, r)
+                        if isinstance(st, ast.Assign) and len(st.targets) == 1 and isinstance(st.targets[0], ast.Subscript) and isinstance(st.targets[0].value, ast.Name):
+                            tgt = st.targets[0].value.id
+                            dumped = any(isinstance(n, ast.Call) and (prog.dotted(g, n.func) or "").endswith(("json.dumps", "json.dump"))
+                                         and any(isinstance(x, ast.Name) and x.id == tgt for x in ast.walk(n)) for n in g.own_nodes())
+                    if not dumped:
                         wit.append(f"{g.loc(r)}: the ref() value does not reach json.dumps(...)")
                 if wit:
                     rep.bad("C17.R1", sb.qname, desc, sb.loc(), wit, "ref-writer", what="the persisted codec reference is not the one of the codec that wrote the blob")
